@@ -233,7 +233,9 @@ def candidates(p: Procedure, rng: random.Random, configs=(), other_procs=(), lim
         add("expand_dim", "%s ext=%s ix=%s" % (path_of(a), ext, ix), lambda a=a, ext=ext, ix=ix: S.expand_dim(p, a, ext, ix))
         if nd:
             d = rng.randrange(nd)
-            add("divide_dim", "%s d=%d" % (path_of(a), d), lambda a=a, d=d: S.divide_dim(p, a, d, rng.choice([2, 3, 4])))
+            for dd in range(nd):
+                for q in pick([2, 3, 4, 8], 2):
+                    add("divide_dim", "%s d=%d q=%d" % (path_of(a), dd, q), lambda a=a, dd=dd, q=q: S.divide_dim(p, a, dd, q))
             add("resize_dim", "%s d=%d" % (path_of(a), d),
                 lambda a=a, d=d: S.resize_dim(p, a, d, rng.choice([1, 2, 4, 6, 8, 9]), rng.choice([0, 0, 1])))
             add("resize_dim_fold", "%s d=%d" % (path_of(a), d),
